@@ -99,6 +99,27 @@ GOLDENS = {
 }
 
 
+def install_monitors(ctx):
+    """Start-up hardening only (nothing is patched): load the database through its file-locked caches with retries.
+
+    16 workers start at once and every one takes the cache file locks with a fixed 10 s timeout; on an overloaded
+    machine `filelock.Timeout` escapes from `DatabaseManager()` and would kill the shard before its first case."""
+    import filelock
+
+    from spsdk.utils.database import DatabaseManager
+
+    for _ in range(30):
+        try:
+            DatabaseManager().quick_info  # noqa: B018
+            DatabaseManager().db  # noqa: B018
+            return
+        except filelock.Timeout:
+            ctx.count("db_cache_lock_timeouts_at_start")
+            DatabaseManager._instance = None  # pylint: disable=protected-access
+            DatabaseManager._db = None  # pylint: disable=protected-access
+    raise core.Inconclusive("database cache lock could not be acquired in 30 attempts")
+
+
 # ------------------------------------------------------------------------------------------------
 # fixtures
 # ------------------------------------------------------------------------------------------------
